@@ -427,6 +427,20 @@ class ndarray(object):
         return self.transpose()
 
     @property
+    def flags(self):
+        class _Flags(object):
+            writeable = True
+
+            def __getitem__(self, k):
+                if k in ('WRITEABLE', 'W'):
+                    return True
+                raise ModelGap("ndarray.flags[%r]" % (k,))
+
+            def __getattr__(self, k):
+                raise ModelGap("ndarray.flags.%s" % k)
+        return _Flags()
+
+    @property
     def flat(self):
         return iter(self._d)
 
